@@ -38,6 +38,11 @@ run "does not take a directory of size 0 for an empty file" C17
 run "ends in a slash or in" C05 C10
 run "working directory itself is not removed" C19
 run "does not follow a symbolic link below .pc" C19
+run "entry dated to the epoch on one side keeps the name" C01
+run "series file is read as bytes" C16
+run "all of whose names -pN has used up" C16
+run "climbs past a directory that never came to exist" C09
+run "also skipped when finding the matching lines alone" C11
 # the check of backups uses the function that the check of targets introduced: undone together
 c3=$(h "does not follow a symbolic link below .pc"); c4=$(h "leads out of the working directory through a symbolic link")
 tools/revert_eval.sh $c3,$c4 C19 2>&1 | grep -v conda | cut -c1-220 >> $out
